@@ -23,12 +23,14 @@ Definition phase_z (p : mphase) : Z :=
 
 Inductive c13_input :=
 | IScenario (sm : bool) (es : list mev)   (* a fault sequence under a StreamManager *)
-| IHeaderWrite.                           (* how a stream header that cannot be written is classified *)
+| IHeaderWrite                            (* how a stream header that cannot be written is classified *)
+| IWssCert.                               (* how a certificate that does not verify is classified on wss:// *)
 
 Definition dec_input (x : sx) : option c13_input :=
   match x with
   | SL [SZ 0; sm; es] => do b <- as_b sm; do l <- as_list dec_ev es; Some (IScenario b l)
   | SL [SZ 1] => Some IHeaderWrite
+  | SL [SZ 2] => Some IWssCert
   | _ => None
   end.
 
@@ -44,6 +46,7 @@ Definition run_typed (i : c13_input) : sx :=
       SL [SZ (phase_z (m_phase s)); Snat (m_estab s); Snat (m_resumed s); Snat (m_post s);
           Snat (m_recv s); Snat (m_conns s)]
   | IHeaderWrite => SL [SZ 9; SB (attempt_permanent header_write_failure)]
+  | IWssCert => SL [SZ 8; SB (attempt_permanent wss_certificate_refused)]
   end.
 
 Definition run_C13 : sx -> sx := with_input dec_input run_typed.
